@@ -2091,6 +2091,51 @@ func ruleCP12(c *Ctx) *rule {
 		var probs []string
 		nWrite := 0
 		isMarshalOfMap := func(data ssa.Value) bool {
+			// json.NewEncoder(buf).Encode(map) and the buffer's bytes (possibly without the trailing newline)
+			es := c.newSlicer()
+			es.depth = 0
+			es.objFlow = true
+			eres := es.run(data)
+			for _, enc := range eres.calls["(*encoding/json.Encoder).Encode"] {
+				if len(enc.Common().Args) == 2 {
+					for _, ao := range origins(enc.Common().Args[1]) {
+						if isCacheMapLoad(ao, mapKey) {
+							return true
+						}
+					}
+				}
+			}
+			// the same through the buffer object: data comes from a buffer that an encoder of this function writes the map to
+			for _, site := range callSites(f) {
+				if calleeName(site.Common()) != "(*encoding/json.Encoder).Encode" || len(site.Common().Args) != 2 {
+					continue
+				}
+				mapOK := false
+				for _, ao := range origins(site.Common().Args[1]) {
+					if isCacheMapLoad(ao, mapKey) {
+						mapOK = true
+					}
+				}
+				if !mapOK {
+					continue
+				}
+				for _, eo := range origins(site.Common().Args[0]) {
+					ne, isCall := eo.(*ssa.Call)
+					if !isCall || calleeName(ne.Common()) != "encoding/json.NewEncoder" {
+						continue
+					}
+					for _, wo := range origins(ne.Common().Args[0]) {
+						if mi, isMI := wo.(*ssa.MakeInterface); isMI {
+							if eres.has(mi.X) {
+								return true
+							}
+						}
+					}
+					if mi, isMI := ne.Common().Args[0].(*ssa.MakeInterface); isMI && eres.has(mi.X) {
+						return true
+					}
+				}
+			}
 			for _, o := range origins(data) {
 				if ex, ok := o.(*ssa.Extract); ok && ex.Index == 0 {
 					if call, ok := ex.Tuple.(*ssa.Call); ok && (calleeName(call.Common()) == "encoding/json.Marshal" || calleeName(call.Common()) == "encoding/json.MarshalIndent") {
